@@ -9,6 +9,16 @@ Cases
   {"kind": "hist", "mats": [rows, rows, ...]}         a HISTORY: the matrices are factorised one after the other in
         one process (module state, if any, survives from call to call); every result is judged against the input
         of ITS call, and once more after the last call (a later call must not alter an earlier result)
+  {"kind": "reuse", "start": rows, "steps": [[op, ...], ...]}   a history in which the caller RE-USES LIST OBJECTS: the
+        library works in place and returns the very lists it was given (the reduced matrix IS the input object), so a
+        caller that keeps working with what it holds feeds the same row list objects into later calls.  `start` is
+        factorised after the ops of steps[0] (usually none); every further step edits what the caller holds
+        (see _reuse_apply: columns / rows appended, inserted, deleted, entries overwritten in place; a new matrix
+        assembled from row lists of earlier inputs / results plus new rows; the returned left / right factor taken
+        as the next input and extended; a rejected call on the empty matrix in between) and factorises again.  Every
+        call is judged exactly (L * M' * R == input as coefficient functions) against the caller's DEEP COPY of the
+        input taken immediately before the call; the model tie compares every call with the pure model applied to
+        that deep copy (recorded in the observation as "inputs").
 entry = "p/q" (a Fraction) or "p/q*sym" (the tuple (Fraction(p, q), "sym")).
 
 Tie: the triple (Op_l, reduced, Op_r) returned by the real code is flattened to a list of integers
@@ -162,6 +172,8 @@ def case_matrices(case):
         return [decode(alph, case["r"], case["c"], case["start"] + k) for k in range(case["count"])]
     if case["kind"] == "hist":
         return [[[parse_entry(s) for s in row] for row in rows] for rows in case["mats"]]
+    if case["kind"] == "reuse":
+        raise ValueError("the inputs of a re-use history are in its observation")
     return [[[parse_entry(s) for s in row] for row in case["rows"]]]
 
 
@@ -360,6 +372,8 @@ def run_case(case):
         except Exception as e:  # noqa
             encs.append("EXC " + type(e).__name__)
         return {"enc": encs, "viol": None}
+    if case["kind"] == "reuse":
+        return run_reuse(case)
     hist = case["kind"] == "hist"
     kept = []
     for idx, M in enumerate(case_matrices(case)):
@@ -393,6 +407,133 @@ def _mat_str(M):
     return str([[entry_str(x) for x in r] for r in M])
 
 
+# ------------------------------------------------------------------------------------------
+# histories in which the caller re-uses the list objects it gave to / got from the library
+# ------------------------------------------------------------------------------------------
+def _pool_add(pool, M):
+    for row in M:
+        if isinstance(row, list) and not any(row is x for x in pool):
+            pool.append(row)
+
+
+def _cyc(es, k):
+    return parse_entry(es[k % len(es)])
+
+
+def _reuse_apply(op, st, ge, rec):
+    """One caller action on what it holds.  st = {"cur": current matrix (list of row lists), "last": last returned
+    triple or None, "pool": every row list object the caller has created, passed in or got back so far}.
+    Positions are taken modulo the current shape, entry lists cyclically, so an op is defined for every shape."""
+    k = op[0]
+    cur = st["cur"]
+    r, c = len(cur), len(cur[0])
+    if k == "appcol":                       # one more column: every row list grows in place
+        for i, row in enumerate(cur):
+            row.append(_cyc(op[1], i))
+    elif k == "approw":                     # one more row: the outer list grows in place
+        cur.append([_cyc(op[1], j) for j in range(c)])
+    elif k == "inscol":
+        p = op[1] % (c + 1)
+        for i, row in enumerate(cur):
+            row.insert(p, _cyc(op[2], i))
+    elif k == "insrow":
+        cur.insert(op[1] % (r + 1), [_cyc(op[2], j) for j in range(c)])
+    elif k == "set":                        # overwrite an entry in place
+        cur[op[1] % r][op[2] % c] = parse_entry(op[3])
+    elif k == "setrow":                     # overwrite the content of a row list in place
+        i = op[1] % r
+        cur[i][:] = [_cyc(op[2], j) for j in range(c)]
+    elif k == "delcol":
+        if c > 1:
+            j = op[1] % c
+            for row in cur:
+                del row[j]
+    elif k == "delrow":
+        if r > 1:
+            del cur[op[1] % r]
+    elif k == "swaprows":
+        i, j = op[1] % r, op[2] % r
+        cur[i], cur[j] = cur[j], cur[i]
+    elif k == "outer":                      # a new outer list around the same row lists
+        st["cur"] = list(cur)
+    elif k == "rebuild":                    # a matrix assembled from row lists held from earlier calls + new rows
+        pool = st["pool"]
+        rows = []
+        for p in op[1]:
+            row = pool[p % len(pool)]
+            if row and not any(row is x for x in rows):
+                rows.append(row)
+        if not rows:
+            rows = [cur[0]]
+        w = len(rows[0])
+        for row in rows[1:]:                # the caller brings the other rows to the same width, in place
+            while len(row) < w:
+                row.append(_cyc(op[3], len(row)))
+            del row[w:]
+        for nr in op[2]:
+            rows.append([_cyc(nr, j) for j in range(w)])
+        st["cur"] = rows
+    elif k == "use":                        # the returned left / right factor is the next input (plain rationals)
+        last = st["last"]
+        if last is not None:
+            X = last[0] if op[1] == "L" else last[2]
+            if isinstance(X, list) and X and all(isinstance(row, list) and row for row in X) \
+                    and len({len(row) for row in X}) == 1:
+                st["cur"] = X
+    elif k == "fresh":                      # an unrelated matrix (the lists held so far stay in the pool)
+        st["cur"] = [[parse_entry(x) for x in row] for row in op[1]]
+    elif k == "bad":                        # a call the library rejects (the empty matrix); the caller goes on
+        try:
+            res = ge([])
+            rec("[]", "returned " + repr(res)[:60])
+        except Exception as e:  # noqa
+            rec("[]", "EXC " + type(e).__name__)
+    else:
+        raise ValueError(f"unknown re-use op {op!r}")
+
+
+def run_reuse(case):
+    """-> {"enc": [str per call], "inputs": [rows (entry strings) per call; [] for a rejected empty-matrix call],
+           "viol": None | [call index, text], "norm": number of stray `int 0` the caller replaced}"""
+    ge = _ge()
+    st = {"cur": [[parse_entry(x) for x in row] for row in case["start"]], "last": None, "pool": []}
+    encs, inputs = [], []
+    viol = None
+    norm = 0
+
+    def rec(inp, enc):
+        inputs.append([] if inp == "[]" else inp)
+        encs.append(enc)
+    for si, ops in enumerate(case["steps"]):
+        for op in ops:
+            _reuse_apply(op, st, ge, rec)
+        cur = st["cur"]
+        # the domain of the check is Fraction / (Fraction, str) entries: the library leaves stray `int 0` in the matrices
+        # it returns and rejects them as input; the caller replaces them in place (value and list objects unchanged)
+        for row in cur:
+            for j, x in enumerate(row):
+                if type(x) is int:
+                    row[j] = Fraction(x)
+                    norm += 1
+        _pool_add(st["pool"], cur)
+        M0 = copy.deepcopy(cur)
+        idx = len(encs)
+        try:
+            res = ge(cur)
+        except Exception as e:  # noqa
+            res = e
+        rec([[entry_str(x) for x in row] for row in M0], _enc_or_text(res))
+        w = oracle_one(M0, res)
+        if w:
+            viol = [idx, w + " for input " + _mat_str(M0) + f" (call {idx + 1} of a history in which the caller re-uses the "
+                    f"list objects of the earlier calls; steps so far: {case['steps'][:si + 1]}, start {case['start']})"]
+            break
+        st["last"] = res
+        st["cur"] = res[1]
+        _pool_add(st["pool"], res[1])
+    return {"enc": encs, "inputs": inputs, "viol": viol, "norm": norm}
+
+
 def _enc_or_text(res):
     if isinstance(res, BaseException):
         return "EXC " + type(res).__name__ + ": " + str(res)[:80]
@@ -415,28 +556,34 @@ def _run_case_safe(case):
 def n_matrices(case):
     if case["kind"] == "hist":
         return len(case["mats"])
+    if case["kind"] == "reuse":
+        return len(case["steps"]) + sum(1 for ops in case["steps"] for op in ops if op[0] == "bad")
     return case["count"] if case["kind"] == "block" else 1
 
 
 _FRESH_CODE = ("import sys, json\nsys.path.insert(0, sys.argv[1])\nimport props.c13 as m\n"
-               "ob = m._run_case_safe(json.load(sys.stdin))\nprint('FRESH ' + json.dumps(ob.get('viol')))\n")
+               "ob = m._run_case_safe(json.load(sys.stdin))\nprint('FRESH ' + json.dumps(ob.get('viol')))\n"
+               "print('FRESHIN ' + json.dumps(ob.get('inputs')))\n")
 
 
-def fresh_viol(case, timeout=600):
+def fresh_viol(case, timeout=600, want_inputs=False):
     """The observation's `viol` of `case` evaluated in a NEW interpreter (no state left over from earlier
-    calls in this process); None when it passes there or cannot be evaluated."""
+    calls in this process); None when it passes there or cannot be evaluated.  want_inputs: -> (viol, inputs)."""
     import json
     import sys
     harness = os.path.dirname(os.path.dirname(os.path.abspath(__file__)))
+    viol, inputs = None, None
     try:
         p = subprocess.run([sys.executable, "-W", "ignore", "-c", _FRESH_CODE, harness], input=json.dumps(case),
                            capture_output=True, text=True, timeout=timeout)
         for line in p.stdout.splitlines():
             if line.startswith("FRESH "):
-                return json.loads(line[6:])
+                viol = json.loads(line[6:])
+            elif line.startswith("FRESHIN "):
+                inputs = json.loads(line[8:])
     except Exception:  # noqa
         pass
-    return None
+    return (viol, inputs) if want_inputs else viol
 
 
 # ------------------------------------------------------------------------------------------
@@ -563,6 +710,16 @@ class C13(Prop):
             "matrices up to 5x5 over 2..6 such names with planted lines: genuine multiples, and lines whose coefficients are "
             "proportional to another line's while the symbols are rearranged within the line or drawn anew (not multiples: both "
             "must be reproduced), as rows or as columns. "
+            "RE-USED LIST OBJECTS (the library reduces its argument in place and returns the very lists it was given): random "
+            "histories of 2..6 factorisations in one process in which the caller keeps working with the objects it holds: the "
+            "returned reduced matrix (= the input object) grown by a column and a row, lines appended / inserted / deleted, "
+            "entries and rows overwritten in place, and factorised again; a matrix assembled from row lists of earlier inputs / "
+            "results (same objects, brought to one width in place) plus new rows; a new outer list around the old rows plus a row; "
+            "the returned left / right factor taken as the next input and extended; an unrelated matrix or a rejected call "
+            "(empty matrix: both sides reject, the history goes on) in between; the same object again unchanged.  Every call is "
+            "judged exactly (L*M'*R == input as coefficient functions, shapes, not larger) against the caller's deep copy of the "
+            "input taken immediately before the call, and tied to the pure model applied to that copy.  Stray `int 0` entries "
+            "of a returned matrix are replaced by Fraction(0) in place by the caller before it is fed back (domain of the check). "
             "non-trivial = at least 2 entries; distinct by case content. One case = one block, one matrix or one history; the number of "
             "matrices (calls) is in coverage.distribution.matrices")
     clauses = [
@@ -575,7 +732,8 @@ class C13(Prop):
               "row/column swaps, deletion of zero rows/columns, are_parallel_* soundness, deparallelize_rows/cols (C13_*_product, C13_parallel_*_sound)"),
         ("V", "the Gallina model equals the Python code: exact comparison of (Op_l, reduced, Op_r) on the exhaustive and random inputs of this run; "
               "in a history every call is compared with the (pure) model applied to the matrix of that call, i.e. the result may not "
-              "depend on earlier calls"),
+              "depend on earlier calls, nor on whether the list objects of the input were seen by an earlier call (re-use histories: "
+              "the model is applied to the caller's deep copy of the input of every call)"),
     ]
     trusted_base = ["entry representation: Python Fraction / int 0 <-> Num q, tuple (Fraction, str) <-> Sym q s with symbols numbered by harness/props/c13.py "
                     "(one fixed injective table name -> nat for the 8 one-letter and the multi-character names; the model sees only the number, "
@@ -782,6 +940,72 @@ class C13(Prop):
             cur = M
         return C13._hist_case(mats)
 
+    # ------------------------------------------------------------------ histories re-using list objects
+    @staticmethod
+    def _reuse_history(rng):
+        """A start matrix and 1..5 further factorisations of what the caller then holds: the returned reduced matrix
+        (= the input object, reduced in place) grown / edited in place, matrices assembled from row lists of earlier
+        calls plus new rows, the returned operator matrices extended, an unrelated or a rejected call in between."""
+        small = rng.random() < 0.5
+        if small:       # small, mostly numeric start (quickly reduced to a few pivots; then the growth matters)
+            alph = rng.choice([["0", "1", "2", "3", "-1", "1/2"], ["0", "1", "2", "1*a", "1*b"], H2, FULL])
+            base = C13._random_matrix(rng, maxdim=rng.choice([2, 2, 3]), alph=alph)
+        else:
+            base = C13._random_matrix(rng, maxdim=rng.choice([3, 4, 5, 6]), alph=rng.choice([FULL, HIST]))
+        al = [s for s in (HIST if rng.random() < 0.5 else ["0", "1", "2", "3", "4", "-1", "1/2", "1*a", "1*b", "2*a", "1*c"]) if s != "0"]
+        pz = rng.choice([0.0, 0.3, 0.6, 0.8])
+
+        def ent():
+            return "0" if rng.random() < pz else rng.choice(al)
+
+        def ents(lo=1, hi=7):
+            es = [ent() for _ in range(rng.randrange(lo, hi))]
+            if all(e == "0" for e in es) and rng.random() < 0.8:
+                es[rng.randrange(len(es))] = rng.choice(al)
+            return es
+
+        def step():
+            w = rng.random()
+            if w < 0.30:        # the matrix grows by a column and a row (either order)
+                ops = [["appcol", ents()], ["approw", ents()]]
+                if rng.random() < 0.3:
+                    ops.reverse()
+            elif w < 0.42:
+                ops = [rng.choice([["appcol", ents()], ["approw", ents()], ["inscol", rng.randrange(8), ents()],
+                                   ["insrow", rng.randrange(8), ents()]]) for _ in range(rng.randrange(1, 3))]
+            elif w < 0.54:      # in-place edits of entries / rows
+                ops = [rng.choice([["set", rng.randrange(8), rng.randrange(8), ent()],
+                                   ["set", rng.randrange(8), rng.randrange(8), rng.choice(al)],
+                                   ["setrow", rng.randrange(8), ents()]]) for _ in range(rng.randrange(1, 4))]
+                if rng.random() < 0.4:
+                    ops.append(rng.choice([["approw", ents()], ["appcol", ents()]]))
+            elif w < 0.74:      # a matrix assembled from row lists of earlier calls + new rows
+                n = rng.randrange(1, 6)
+                idxs = list(range(n)) if rng.random() < 0.5 else [rng.randrange(12) for _ in range(n)]
+                ops = [["rebuild", idxs, [ents() for _ in range(rng.choice([0, 1, 1, 1, 2]))], ents()]]
+                if rng.random() < 0.25:
+                    ops.append(["appcol", ents()])
+            elif w < 0.80:      # same rows, new outer list, one more row
+                ops = [["outer"], ["approw", ents()]]
+            elif w < 0.88:      # a returned operator matrix becomes the next input
+                ops = [["use", rng.choice(["L", "R"])]]
+                ops += [rng.choice([["appcol", ents()], ["approw", ents()], ["set", rng.randrange(8), rng.randrange(8), ent()]])
+                        for _ in range(rng.randrange(0, 3))]
+            elif w < 0.93:      # lines removed / rows exchanged
+                ops = [rng.choice([["delcol", rng.randrange(8)], ["delrow", rng.randrange(8)],
+                                   ["swaprows", rng.randrange(8), rng.randrange(8)]]) for _ in range(rng.randrange(1, 3))]
+                ops.append(rng.choice([["approw", ents()], ["appcol", ents()]]))
+            elif w < 0.97:      # an unrelated matrix in between; the next steps may come back to the old row lists
+                fr = C13._random_matrix(rng, maxdim=3, alph=FULL)
+                ops = [["fresh", fr["rows"]]]
+            else:               # the same object again, unchanged
+                ops = []
+            if rng.random() < 0.06:
+                ops.insert(rng.randrange(len(ops) + 1), ["bad"])
+            return ops
+        steps = [[]] + [step() for _ in range(rng.choice([1, 1, 2, 2, 3, 4, 5]))]
+        return {"kind": "reuse", "start": base["rows"], "steps": steps}
+
     def _histories(self, ctx, stream, budget_scale):
         rng = ctx.rng(stream + "/hist")
         cases = []
@@ -798,6 +1022,10 @@ class C13(Prop):
             cases.append(self._sweep_history(H2, 1, 2, rng))
         for _ in range(ctx.scale(150, 3000) * budget_scale):
             cases.append(self._random_history(rng))
+        # own random stream: the histories above are the same as before for a given seed
+        ru = ctx.rng(stream + "/reuse")
+        for _ in range(ctx.scale(1000, 30000) * budget_scale):
+            cases.append(self._reuse_history(ru))
         return cases
 
     def generate(self, ctx, stream, budget_scale=1):
@@ -863,6 +1091,8 @@ class C13(Prop):
             return sum(len(r) for r in case["rows"]) >= 2
         if case["kind"] == "hist":
             return len(case["mats"]) >= 2
+        if case["kind"] == "reuse":
+            return len(case["steps"]) >= 2
         return False
 
     def distribution(self, cases):
@@ -905,6 +1135,20 @@ class C13(Prop):
                             c["history/step other (scaled, permuted, ...)"] += 1
                     else:
                         c["history/step other (scaled, permuted, ...)"] += 1
+            elif x["kind"] == "reuse":
+                n = n_matrices(x)
+                c["reuse/histories (caller re-uses the list objects of earlier calls)"] += 1
+                c["reuse/calls"] += n
+                c["matrices"] += n
+                c[f"reuse/start {len(x['start'])}x{len(x['start'][0])}"] += 1
+                for ops in x["steps"][1:]:
+                    names = [op[0] for op in ops]
+                    if not names:
+                        c["reuse/step: same object again, unchanged"] += 1
+                    elif "appcol" in names and "approw" in names and len(names) == 2:
+                        c["reuse/step: returned matrix grown by a column and a row in place"] += 1
+                    for nm in sorted(set(names)):
+                        c["reuse/op " + nm] += 1
             else:
                 c["malformed"] += 1
         return dict(sorted(c.items()))
@@ -936,6 +1180,7 @@ class C13(Prop):
                 slots.append(mat_slot)
                 mats, mat_slot, mat_w = [], [], 0
         alph_cache = {}
+        out_empty = []
         for i, c in enumerate(cases):
             if c["kind"] == "block":
                 key = tuple(c["alph"])
@@ -943,6 +1188,15 @@ class C13(Prop):
                     alph_cache[key] = "[" + "; ".join(coq_ent(parse_entry(s)) for s in c["alph"]) + "]"
                 exprs.append((f"ge_block {alph_cache[key]} {c['r']}%nat {c['c']}%nat {c['start']}%N {c['count']}%nat", c["count"]))
                 slots.append([(i, c["count"])])
+            elif c["kind"] == "reuse":
+                # the inputs of the calls (the caller's deep copies) are in the observation; the model is pure
+                Ms = [[[parse_entry(x) for x in row] for row in rows] for rows in (obs[i].get("inputs") or [])]
+                if not Ms:
+                    out_empty.append(i)
+                for lo in range(0, len(Ms), 200):
+                    part = Ms[lo:lo + 200]
+                    exprs.append(("ge_list [" + ";\n ".join(coq_mat(M) for M in part) + "]", len(part)))
+                    slots.append([(i, len(part))])
             elif c["kind"] == "hist":
                 # the model is a pure function: a history is the list of the independent results
                 Ms = case_matrices(c)
@@ -961,6 +1215,8 @@ class C13(Prop):
         per_file = max(400, min(6000, total // 28 + 1))
         vals = _coq_eval_ostr(ctx, exprs, per_file)
         out = [None] * len(cases)
+        for i in out_empty:
+            out[i] = []
         for v, sl in zip(vals, slots):
             if isinstance(v, BaseException):
                 for i, _ in sl:
@@ -1008,6 +1264,18 @@ class C13(Prop):
             if mo == ["-1"] and enc and enc[0].startswith("EXC IndexError"):
                 return None
             return f"empty matrix: implementation {enc}, model {mo}"
+        if case["kind"] == "reuse":
+            inputs = ob.get("inputs") or []
+            if len(enc) != len(mo) or len(enc) != len(inputs):
+                return f"{len(enc)} implementation results, {len(mo)} model results, {len(inputs)} recorded inputs"
+            for k, (a, b) in enumerate(zip(enc, mo)):
+                if inputs[k] == []:
+                    if not (b == "-1" and a.startswith("EXC IndexError")):
+                        return f"empty matrix (call {k + 1} of a re-use history): implementation {a}, model {b}"
+                elif a != b:
+                    return (f"call {k + 1} of a re-use history, input {inputs[k]}: implementation {dec_result(a)} ; "
+                            f"model {dec_result(b)}")
+            return None
         if enc == mo:
             return None
         mats = case_matrices(case)
@@ -1034,6 +1302,8 @@ class C13(Prop):
     def shrink(self, ctx, case, pred):
         if case["kind"] == "hist":
             return self._shrink_hist(case)
+        if case["kind"] == "reuse":
+            return self._shrink_reuse(case)
         if case["kind"] != "block":
             return case
         ob = _run_case_safe(case)
@@ -1042,6 +1312,33 @@ class C13(Prop):
             small = {"kind": "mat", "rows": [[entry_str(e) for e in row] for row in M]}
             if pred(small):
                 return small
+        return case
+
+    @staticmethod
+    def _shrink_reuse(case):
+        """Shorter re-use history that still fails in a NEW process: the steps after the failing call are dropped; then
+        the history is started later (start := the content of the input of call j on fresh lists, steps j+1 .. failing
+        call), latest start first."""
+        v, inputs = fresh_viol(case, want_inputs=True)
+        if not v or not inputs:
+            return case
+        # call index -> step index (a rejected empty-matrix call takes a call index of its own)
+        k, step_of_call = 0, {}
+        for si, ops in enumerate(case["steps"]):
+            k += sum(1 for op in ops if op[0] == "bad")
+            step_of_call[k] = si
+            k += 1
+        si = step_of_call.get(v[0])
+        if si is None:
+            return case
+        best = {"kind": "reuse", "start": case["start"], "steps": case["steps"][:si + 1]}
+        call_of_step = {s_: c_ for c_, s_ in step_of_call.items()}
+        for j in range(si - 1, 0, -1):
+            small = {"kind": "reuse", "start": inputs[call_of_step[j]], "steps": [[]] + case["steps"][j + 1:si + 1]}
+            if small["start"] and fresh_viol(small):
+                return small
+        if len(best["steps"]) < len(case["steps"]) and fresh_viol(best):
+            return best
         return case
 
     @staticmethod
